@@ -274,10 +274,18 @@ def time_shift(z, /, shift, crop=False):
     Since an FFT is used, it is efficient to provide a signal with a
     fast FFT length via :py:func:`pulsarbat.fast_len`.
     """
-    if isinstance(shift, u.Quantity):
+    from_time = isinstance(shift, u.Quantity)
+    if from_time:
         shift = (shift * z.sample_rate).to_value(u.one)
 
     shift = np.array(shift, dtype=np.float64)
+
+    if from_time:
+        # Snap to the sample grid if within rounding error of a whole sample
+        # (1.1 ms * 50 kHz = 55.00000000000001 is a shift by 55 samples)
+        whole = np.round(shift)
+        near = np.abs(shift - whole) <= 8 * np.finfo(float).eps * np.abs(shift)
+        shift = np.where(near, whole, shift)
 
     if shift.ndim >= z.ndim:
         raise ValueError(
